@@ -14,7 +14,13 @@ from __future__ import annotations
 import ast
 import typing as t
 
-from translate import HEADER, Untranslatable, find_class, find_func, lean_str, parse
+import os
+import sys
+
+sys.path.insert(0, os.path.dirname(os.path.abspath(__file__)))
+
+import c04_alias  # noqa: E402
+from translate import HEADER, Untranslatable, find_class, find_func, lean_str, parse  # noqa: E402
 
 
 def _copy_locals(fn: ast.FunctionDef) -> t.Set[str]:
@@ -188,4 +194,225 @@ def gen_purity(repo: str) -> str:
     return "\n".join(out) + "\n"
 
 
-GENERATORS = {"Purity": gen_purity}
+# ------------------------------------------------------------------------------------------------
+# hint resolution, `_hint`, `limit`: statement-by-statement
+# ------------------------------------------------------------------------------------------------
+
+
+def _target(name: str, selfname: str, copies: t.Set[str], ob: str) -> str:
+    if name == selfname:
+        return "onSelf"
+    if name in copies:
+        return "onCopy"
+    raise Untranslatable(ob, f"neither the receiver nor its working copy: {name!r}")
+
+
+def _resolve_decisions(fn: ast.FunctionDef) -> t.Dict[str, str]:
+    """`_resolve_pending_hints`: on which object the partition-hint loop iterates, from whose list it removes, whose
+    expression receives the hint clause, which object is returned"""
+    ob = "Gen.Purity._resolve_pending_hints"
+    body = [st for st in fn.body if not (isinstance(st, ast.Expr) and isinstance(st.value, ast.Constant))]
+    if not body or not isinstance(body[0], ast.Assign) or len(body[0].targets) != 1 or not isinstance(body[0].targets[0], ast.Name):
+        raise Untranslatable(ob, "expected `df = self.copy()` first")
+    work = body[0].targets[0].id
+    first = ast.unparse(body[0].value)
+    copies: t.Set[str] = set()
+    if first == "self.copy()":
+        copies = {work}
+    elif first != "self":
+        raise Untranslatable(ob, f"working object built by {first}")
+    tgt = lambda n: "onSelf" if (n == "self" or not copies) else _target(n, "self", copies, ob)  # noqa: E731
+    out: t.Dict[str, str] = {}
+    # early return
+    if not (isinstance(body[1], ast.If) and ast.unparse(body[1].test) in ("not self.pending_hints", f"not {work}.pending_hints")
+            and len(body[1].body) == 1 and isinstance(body[1].body[0], ast.Return) and isinstance(body[1].body[0].value, ast.Name) and not body[1].orelse):
+        raise Untranslatable(ob, "expected `if not self.pending_hints: return df`")
+    early = tgt(body[1].body[0].value.id)
+    # expression = <X>.expression
+    exprs = [st for st in body if isinstance(st, ast.Assign) and ast.unparse(st.targets[0]) == "expression"]
+    if len(exprs) != 1 or not (isinstance(exprs[0].value, ast.Attribute) and exprs[0].value.attr == "expression" and isinstance(exprs[0].value.value, ast.Name)):
+        raise Untranslatable(ob, "expected `expression = df.expression`")
+    out["resolveAttachesTo"] = tgt(exprs[0].value.value.id)
+    sets = [n for n in ast.walk(fn) if isinstance(n, ast.Call) and isinstance(n.func, ast.Attribute) and n.func.attr == "set" and n.args and isinstance(n.args[0], ast.Constant) and n.args[0].value == "hint"]
+    if len(sets) != 1 or ast.unparse(sets[0].func.value) != "expression":
+        raise Untranslatable(ob, "expected exactly one `expression.set('hint', …)`")
+    # the partition-hint loop
+    loops = [st for st in body if isinstance(st, ast.For) and isinstance(st.iter, ast.Attribute) and st.iter.attr == "pending_partition_hints"]
+    if len(loops) != 1 or not isinstance(loops[0].iter.value, ast.Name) or not isinstance(loops[0].target, ast.Name):
+        raise Untranslatable(ob, "expected one `for hint in <df>.pending_partition_hints` loop")
+    lp = loops[0]
+    hv = lp.target.id
+    out["resolveIterates"] = tgt(lp.iter.value.id)
+    stmts = [ast.unparse(x) for x in lp.body]
+    rem = [x for x in lp.body if isinstance(x, ast.Expr) and isinstance(x.value, ast.Call) and isinstance(x.value.func, ast.Attribute) and x.value.func.attr == "remove"]
+    if len(lp.body) != 2 or f"hint_expression.append('expressions', {hv})" not in stmts or len(rem) != 1:
+        raise Untranslatable(ob, f"partition-hint loop body is {stmts}")
+    rf = rem[0].value.func.value
+    if not (isinstance(rf, ast.Attribute) and rf.attr == "pending_hints" and isinstance(rf.value, ast.Name) and ast.unparse(rem[0].value.args[0]) == hv):
+        raise Untranslatable(ob, f"removal is {ast.unparse(rem[0])}")
+    out["resolveRemovesFrom"] = tgt(rf.value.id)
+    # the join-hint loop: which object's hints it walks, and whether it rewrites the hint node it found
+    jl = [n for n in ast.walk(fn) if isinstance(n, ast.For) and isinstance(n.iter, ast.Attribute) and n.iter.attr == "pending_join_hints"]
+    if len(jl) != 1 or not isinstance(jl[0].iter.value, ast.Name):
+        raise Untranslatable(ob, "expected one `for hint in <df>.pending_join_hints` loop")
+    out["resolveJoinIterates"] = tgt(jl[0].iter.value.id)
+    node_sets = [n for n in ast.walk(jl[0]) if isinstance(n, ast.Call) and isinstance(n.func, ast.Attribute) and n.func.attr == "set"]
+    out["resolveRewritesJoinHintNode"] = str(bool(node_sets)).lower()
+    if not isinstance(body[-1], ast.Return) or not isinstance(body[-1].value, ast.Name):
+        raise Untranslatable(ob, "expected `return df` last")
+    out["resolveReturns"] = tgt(body[-1].value.id)
+    if early != out["resolveReturns"]:
+        raise Untranslatable(ob, "the early return and the final return hand back different objects")
+    return out
+
+
+def _hint_decisions(fn: ast.FunctionDef) -> str:
+    """`_hint`: new_df = self.copy(); <X>.pending_hints.append(hint_expression); return new_df"""
+    ob = "Gen.Purity._hint"
+    copies = _copy_locals(fn)
+    apps = [n for n in ast.walk(fn) if isinstance(n, ast.Call) and isinstance(n.func, ast.Attribute) and n.func.attr in ("append", "extend", "insert")
+            and isinstance(n.func.value, ast.Attribute) and n.func.value.attr == "pending_hints"]
+    if len(apps) != 1 or not isinstance(apps[0].func.value.value, ast.Name):
+        raise Untranslatable(ob, "expected exactly one `<df>.pending_hints.append(…)`")
+    ret = fn.body[-1]
+    if not (isinstance(ret, ast.Return) and isinstance(ret.value, ast.Name) and ret.value.id in copies):
+        raise Untranslatable(ob, "expected the copy to be returned")
+    return _target(apps[0].func.value.value.id, "self", copies, ob)
+
+
+def _limit_decisions(fn: ast.FunctionDef) -> t.Dict[str, str]:
+    """`limit`: [if limit_exp := self.expression.args.get('limit'): num = min/max(num, int(limit_exp.expression.this))]
+    return self.copy(expression=self.expression.limit(num))  — any other statement is not understood"""
+    ob = "Gen.Purity.limit"
+    body = [st for st in fn.body if not (isinstance(st, ast.Expr) and isinstance(st.value, ast.Constant))]
+    reads = False
+    for st in body[:-1]:
+        ok = (isinstance(st, ast.If) and isinstance(st.test, ast.NamedExpr) and ast.unparse(st.test.value) == "self.expression.args.get('limit')"
+              and not st.orelse and len(st.body) == 1 and isinstance(st.body[0], ast.Assign) and ast.unparse(st.body[0].targets[0]) == "num"
+              and isinstance(st.body[0].value, ast.Call) and isinstance(st.body[0].value.func, ast.Name) and st.body[0].value.func.id in ("min", "max"))
+        if not ok:
+            raise Untranslatable(ob, f"statement not understood: {ast.unparse(st)[:100]}")
+        reads = True
+    ret = body[-1]
+    if not (isinstance(ret, ast.Return) and isinstance(ret.value, ast.Call) and ast.unparse(ret.value.func) == "self.copy"
+            and len(ret.value.keywords) == 1 and ret.value.keywords[0].arg == "expression" and not ret.value.args):
+        raise Untranslatable(ob, f"result not understood: {ast.unparse(ret)[:100]}")
+    b = ret.value.keywords[0].value
+    if not (isinstance(b, ast.Call) and ast.unparse(b.func) == "self.expression.limit"):
+        raise Untranslatable(ob, f"LIMIT not built by self.expression.limit(…): {ast.unparse(b)[:80]}")
+    copies = not any(k.arg == "copy" and not (isinstance(k.value, ast.Constant) and k.value.value is True) for k in b.keywords)
+    return {"limitReadsReceiverLimit": str(reads).lower(), "limitResultOnCopy": "true", "limitBuilderCopies": str(copies).lower()}
+
+
+_PURITY0 = gen_purity
+
+
+def gen_purity2(repo: str) -> str:
+    text = _PURITY0(repo)
+    df = find_class(parse(repo, "sqlframe/base/dataframe.py"), "BaseDataFrame")
+    out = []
+    out.append("inductive Target | onSelf | onCopy deriving DecidableEq, Repr")
+    out.append("/-- `_resolve_pending_hints`: the object whose partition hints the loop walks / from whose `pending_hints` it removes /")
+    out.append("    whose expression receives the hint clause / that is returned; whose join hints it walks, and whether it rewrites a hint node in place -/")
+    r = _resolve_decisions(find_func(df.body, "_resolve_pending_hints"))
+    for k in ("resolveIterates", "resolveRemovesFrom", "resolveAttachesTo", "resolveReturns", "resolveJoinIterates"):
+        out.append(f"def {k} : Target := .{r[k]}")
+    out.append(f"def resolveRewritesJoinHintNode : Bool := {r['resolveRewritesJoinHintNode']}")
+    out.append("/-- `_hint`: the object whose `pending_hints` receives the new hint (the copy is what is returned) -/")
+    out.append(f"def hintAppendsTo : Target := .{_hint_decisions(find_func(df.body, '_hint'))}")
+    out.append("/-- `limit`: reads the LIMIT already present; returns `self.copy(expression=…)`; builds it with sqlglot's copying builder -/")
+    for k, v in _limit_decisions(find_func(df.body, "limit")).items():
+        out.append(f"def {k} : Bool := {v}")
+    # copy(): does anything deep-copy the hint nodes?  object_to_dict copies each attribute with `v.copy()`: a list's copy is shallow
+    out.append("/-- the hint nodes in `pending_hints` are shared between a DataFrame and its copies (`copy()` hands `object_to_dict`'s")
+    out.append("    shallow `list.copy()` to the constructor, which stores it as it is) -/")
+    out.append(f"def copySharesHintNodes : Bool := {str(_copy_shares_hint_nodes(df)).lower()}")
+    # alias(): the loop that re-points join hints at the new sequence id
+    al = find_func(df.body, "alias")
+    al_sets = [n for n in ast.walk(al) if isinstance(n, ast.Call) and isinstance(n.func, ast.Attribute) and n.func.attr == "set"]
+    al_loops = [n for n in ast.walk(al) if isinstance(n, ast.For) and isinstance(n.iter, ast.Attribute) and n.iter.attr == "pending_join_hints"]
+    if len(al_loops) > 1 or (al_sets and not al_loops):
+        raise Untranslatable("Gen.Purity.alias", "join-hint rewriting in alias() not understood")
+    if al_loops:
+        copies = _copy_locals(al)
+        if not isinstance(al_loops[0].iter.value, ast.Name):
+            raise Untranslatable("Gen.Purity.alias", "join-hint loop over an unknown object")
+        where = _target(al_loops[0].iter.value.id, "self", copies, "Gen.Purity.alias")
+        copied_nodes = any(isinstance(n, ast.Call) and isinstance(n.func, ast.Attribute) and n.func.attr == "copy" and "hint" in ast.unparse(n.func.value) for n in ast.walk(al))
+    else:
+        where, copied_nodes = "onCopy", True
+    out.append("/-- `alias`: the DataFrame whose join hints are re-pointed at the new sequence id, and whether the hint node is rewritten in place -/")
+    out.append(f"def aliasRepointsHintsOf : Target := .{where}")
+    out.append(f"def aliasRewritesHintNode : Bool := {str(bool(al_sets) and not copied_nodes).lower()}")
+    marker = "/-- static call graph"
+    i = text.index(marker)
+    return text[:i] + "\n".join(out) + "\n\n" + text[i:]
+
+
+# ------------------------------------------------------------------------------------------------
+# Gen/Writes.lean: which DataFrame-owned state each member can write in place (tools/c04_alias.py)
+# ------------------------------------------------------------------------------------------------
+
+
+def _public(name: str) -> bool:
+    return not name.startswith("_") or name in ("__getitem__", "__getattr__", "__copy__")
+
+
+def _copy_shares_hint_nodes(df: ast.ClassDef) -> bool:
+    """`copy()` hands `object_to_dict`'s shallow `list.copy()` of `pending_hints` to the constructor, which stores the list it is
+    given: the hint nodes are shared unless one of the two copies them"""
+    cp = find_func(df.body, "copy")
+    init = find_func(df.body, "__init__")
+    deep_init = any("pending_hints" in ast.unparse(n) and ".copy()" in ast.unparse(n) for n in init.body if isinstance(n, ast.Assign))
+    return "pending_hints" not in ast.unparse(cp) and not deep_init
+
+
+def writes_table(repo: str) -> t.Dict[str, t.Any]:
+    mod = parse(repo, "sqlframe/base/dataframe.py")
+    df = find_class(mod, "BaseDataFrame")
+    duck = find_class(parse(repo, "sqlframe/duckdb/dataframe.py"), "DuckDBDataFrame")
+    mixin = find_class(parse(repo, "sqlframe/base/mixins/dataframe_mixins.py"), "TypedColumnsFromTempViewMixin")
+    op = find_func(parse(repo, "sqlframe/base/operations.py").body, "operation")
+    wrapper = find_func(find_func(op.body, "decorator").body, "wrapper")
+    an = c04_alias.analyze_class([df, duck, mixin], wrapper, shares_hints=_copy_shares_hint_nodes(df))
+
+    def locs(s: c04_alias.Summary) -> t.List[str]:
+        return sorted({p if kind == "own" else f"{p}.hints" for (p, kind) in s.writes})
+
+    table = {m: locs(an.pub[m]) for m in an.methods if _public(m)}
+    for a, m in an.aliases.items():
+        if _public(a):
+            table[a] = table.get(m, locs(an.pub[m]))
+    helpers = sorted(m for m in an.methods if not _public(m) and any(kind == "own" and p == an.methods[m].args.args[0].arg for (p, kind) in an.raw[m].writes if an.methods[m].args.args))
+    returns = sorted(m for m in table if m in an.methods and any(k == "S" for k, _ in an.pub[m].ret))
+    hint_sites = sorted({site.split(":")[0] for m in an.methods for (p, kind), sites in an.raw[m].writes.items() if kind == "hints" for site in sites if "->" not in site})
+    sites = {m: {f"{p}{'' if kind == 'own' else '.hints'}": sorted(v)[:3] for (p, kind), v in an.pub[m].writes.items()} for m in an.methods if _public(m)}
+    return {"table": table, "helpers": helpers, "returns": returns, "hint_sites": hint_sites, "sites": sites, "decorated": sorted(an.decorated)}
+
+
+def gen_writes(repo: str) -> str:
+    w = writes_table(repo)
+    out = [HEADER, "namespace Sqlframe.Gen", ""]
+    out.append("/-- for every public member of BaseDataFrame (through `operation.wrapper` where decorated): the state owned by a DataFrame or")
+    out.append("    argument *passed in* that it can write in place — `self` / `<param>` = that object's own state, `<param>.hints` = a hint")
+    out.append("    node shared by that DataFrame and its copies (static alias analysis, tools/c04_alias.py) -/")
+    out.append("def receiverWrites : List (String × List String) := [")
+    rows = []
+    for k in sorted(w["table"]):
+        v = w["table"][k]
+        rows.append(f"  ({lean_str(k)}, [{', '.join(lean_str(x) for x in v)}])")
+    out.append(",\n".join(rows))
+    out.append("]")
+    out.append("/-- private helpers that write their own receiver (constructor, display-name recorder): the table above shows that no")
+    out.append("    public member reaches them on a DataFrame that was passed in -/")
+    out.append(f"def selfWritingHelpers : List String := [{', '.join(lean_str(x) for x in w['helpers'])}]")
+    out.append("/-- public members that can hand back the receiver object itself -/")
+    out.append(f"def returnsReceiver : List String := [{', '.join(lean_str(x) for x in w['returns'])}]")
+    out.append("/-- the methods that contain a write to a shared hint node -/")
+    out.append(f"def hintNodeWriteSites : List String := [{', '.join(lean_str(x) for x in w['hint_sites'])}]")
+    out.append("")
+    out.append("end Sqlframe.Gen")
+    return "\n".join(out) + "\n"
+
+
+GENERATORS = {"Purity": gen_purity2, "Writes": gen_writes}
